@@ -38,3 +38,41 @@ package flows
 //@   loop 0 invariant f.cfg.MaxCertSize == 0 ==> currentCert == fullCert
 //@   loop 0 invariant fullCert.FromBlock == old(fullCert.FromBlock) && fullCert.ToBlock == old(fullCert.ToBlock) && fullCert.Bridges == old(fullCert.Bridges) && fullCert.Claims == old(fullCert.Claims)
 //@   loop 0 decreases currentCert.ToBlock - currentCert.FromBlock
+
+// ---- certificate chain arithmetic (C02): next height, previous LER, next first block
+
+// ghost view of the local certificate store: one row per height (primary key)
+//@ ghost var certPresent map[int]bool
+//@ ghost var certRow map[int]types.CertificateHeader
+
+//@ interface github.com/agglayer/aggkit/aggsender/db.AggSenderStorage.GetCertificateHeaderByHeight (self, height)
+//@   modifies nothing
+//@   ensures (result1 == nil && result0 == nil) ==> !certPresent[height]
+//@   ensures (result1 == nil && result0 != nil) ==> certPresent[height] && *result0 == certRow[height] && result0.Height == height
+
+//@ interface github.com/agglayer/aggkit/aggsender/types.LERQuerier.GetLastLocalExitRoot (self)
+//@   modifies nothing
+
+//@ func (f *baseFlow) getLastSentBlockAndRetryCount
+//@   props C02
+//@   requires f != nil
+//@   requires lastSentCertificateInfo != nil ==> lastSentCertificateInfo.RetryCount < 9223372036854775807
+//@   ensures[first] lastSentCertificateInfo == nil ==> result0 == f.cfg.StartL2Block && result1 == 0
+//@   ensures[after-last-block] (lastSentCertificateInfo != nil && lastSentCertificateInfo.Status != agglayertypes.InError) ==> result0 == lastSentCertificateInfo.ToBlock && result1 == 0
+//@   ensures[retry-reuses-first-block] (lastSentCertificateInfo != nil && lastSentCertificateInfo.Status == agglayertypes.InError && lastSentCertificateInfo.FromBlock > 0) ==> result0 + 1 == lastSentCertificateInfo.FromBlock && result1 == lastSentCertificateInfo.RetryCount + 1
+
+//@ func (f *baseFlow) getNextHeightAndPreviousLER
+//@   props C02
+//@   requires f != nil && f.lerQuerier != nil && f.storage != nil
+//@   requires lastSentCertificateInfo != nil ==> lastSentCertificateInfo.Height < 18446744073709551615
+//@   ensures[first] (lastSentCertificateInfo == nil && result2 == nil) ==> result0 == 0
+//@   ensures[settled] (lastSentCertificateInfo != nil && lastSentCertificateInfo.Status == agglayertypes.Settled) ==> result2 == nil && result0 == lastSentCertificateInfo.Height + 1 && result1 == lastSentCertificateInfo.NewLocalExitRoot
+//@   ensures[replace-same-height] (lastSentCertificateInfo != nil && lastSentCertificateInfo.Status == agglayertypes.InError && result2 == nil) ==> result0 == lastSentCertificateInfo.Height
+//@   ensures[replace-stored-ler] (lastSentCertificateInfo != nil && lastSentCertificateInfo.Status == agglayertypes.InError && lastSentCertificateInfo.PreviousLocalExitRoot != nil) ==> result2 == nil && result1 == *lastSentCertificateInfo.PreviousLocalExitRoot
+//@   ensures[replace-ler-from-settled] (lastSentCertificateInfo != nil && lastSentCertificateInfo.Status == agglayertypes.InError && lastSentCertificateInfo.PreviousLocalExitRoot == nil && lastSentCertificateInfo.Height > 0 && result2 == nil) ==> certPresent[lastSentCertificateInfo.Height - 1] && certRow[lastSentCertificateInfo.Height - 1].Status == agglayertypes.Settled && result1 == certRow[lastSentCertificateInfo.Height - 1].NewLocalExitRoot
+//@   ensures[undecided-refused] (lastSentCertificateInfo != nil && lastSentCertificateInfo.Status != agglayertypes.Settled && lastSentCertificateInfo.Status != agglayertypes.InError) ==> result2 != nil
+
+//@ func (f *baseFlow) verifyRetryCertStartingBlock
+//@   props C02
+//@   requires buildParams != nil
+//@   ensures[retry-first-block] result == nil ==> ((buildParams.RetryCount > 0 && buildParams.LastSentCertificate != nil) ==> buildParams.FromBlock == buildParams.LastSentCertificate.FromBlock)
